@@ -41,6 +41,8 @@ def _setup():
     class M(eqx.Module):
         p: jax.Array  # float counter: the only trainable leaf
         table: jax.Array  # int table: static (not inexact), traced -> one compilation for all histories
+        base: float = eqx.field(static=True, default=0.0)   # loss = base + table[p] * scale, exactly representable for the SPACINGS below
+        scale: float = eqx.field(static=True, default=1.0)
 
     def counting():
         return optax.GradientTransformation(
@@ -49,11 +51,11 @@ def _setup():
 
     def data_loss(params, static, x, condition=None, key=None):
         m = eqx.combine(params, static)
-        return m.table[m.p.astype(int)].astype(float) + 0.0 * m.p
+        return m.base + m.table[m.p.astype(int)].astype(float) * m.scale + 0.0 * m.p
 
     def var_loss(params, static, key):
         m = eqx.combine(params, static)
-        return m.table[m.p.astype(int)].astype(float) + 0.0 * m.p
+        return m.base + m.table[m.p.astype(int)].astype(float) * m.scale + 0.0 * m.p
 
     _state.update(dict(eqx=eqx, jax=jax, jnp=jnp, jr=jr, M=M, counting=counting, data_loss=data_loss, var_loss=var_loss,
                        fit_to_data=fit_to_data, fit_var=fit_to_variational_target, count_fruitless=count_fruitless))
@@ -61,6 +63,13 @@ def _setup():
 
 
 TLEN = 80  # fixed table length (one jit cache entry)
+# How the scripted ranks become loss values (base, scale): the order is the same, the float64 values are exact, but under the
+# last two neighbouring losses differ by less than float32 resolution (seeded change C16f located the minimum in single precision)
+SPACINGS = [(0.0, 1.0), (1.0, 2.0 ** -40), (2.0 ** 25, 1.0)]
+
+
+def _lossval(v, sp):
+    return sp[0] + float(v) * sp[1]
 
 
 def _as_kind(v, kind):
@@ -74,7 +83,7 @@ def _as_kind(v, kind):
     return int(v)
 
 
-def run_data(vals, P, max_epochs, rb, nb, kinds=(0, 0)):
+def run_data(vals, P, max_epochs, rb, nb, kinds=(0, 0), sp=(0.0, 1.0)):
     """Run the real fit_to_data; nb = training batches (= optimiser updates) per epoch.  kinds: how max_patience and
     max_epochs are typed (seeded change C16d disabled early stopping for non-`int` patience)."""
     s = _setup()
@@ -87,26 +96,26 @@ def run_data(vals, P, max_epochs, rb, nb, kinds=(0, 0)):
     n = 3 * nb + 1
     x = jnp.arange(float(n))[:, None]
     d, losses = s["fit_to_data"](
-        s["jr"].PRNGKey(0), s["M"](jnp.array(0.0), jnp.asarray(table)), x, loss_fn=s["data_loss"], max_epochs=max_epochs,
+        s["jr"].PRNGKey(0), s["M"](jnp.array(0.0), jnp.asarray(table), float(sp[0]), float(sp[1])), x, loss_fn=s["data_loss"], max_epochs=max_epochs,
         max_patience=P, batch_size=3, val_prop=1.0 / n, optimizer=s["counting"](), return_best=rb, show_progress=False,
     )
     return int(d.p), [float(v) for v in losses["train"]], [float(v) for v in losses["val"]]
 
 
-def run_var(vals, steps, rb):
+def run_var(vals, steps, rb, sp=(0.0, 1.0)):
     s = _setup()
     jnp = s["jnp"]
     table = np.full(TLEN, 9999, dtype=np.int64)
     table[: len(vals)] = vals
     d, losses = s["fit_var"](
-        s["jr"].PRNGKey(0), s["M"](jnp.array(0.0), jnp.asarray(table)), s["var_loss"], steps=steps,
+        s["jr"].PRNGKey(0), s["M"](jnp.array(0.0), jnp.asarray(table), float(sp[0]), float(sp[1])), s["var_loss"], steps=steps,
         optimizer=s["counting"](), return_best=rb, show_progress=False,
     )
     return int(d.p), [float(v) for v in losses]
 
 
 # ---------- the property's own clauses on the observation (independent of the model) ----------
-def oracle_data(vals, P, max_epochs, rb, nb, obs):
+def oracle_data(vals, P, max_epochs, rb, nb, obs, sp=(0.0, 1.0)):
     counter, train, val = obs
     n = len(val)
     avail = list(vals)[:max_epochs]
@@ -115,7 +124,7 @@ def oracle_data(vals, P, max_epochs, rb, nb, obs):
         errs.append(f"ran {n} epochs > max_epochs {max_epochs}")
     if len(train) != n:
         errs.append(f"{len(train)} train losses for {n} validation losses")
-    if val != [float(v) for v in avail[:n]]:
+    if val != [_lossval(v, sp) for v in avail[:n]]:
         errs.append(f"validation losses {val} are not the scripted prefix {avail[:n]}")
         return errs
 
@@ -141,12 +150,12 @@ def oracle_data(vals, P, max_epochs, rb, nb, obs):
     return errs
 
 
-def oracle_var(vals, steps, rb, obs):
+def oracle_var(vals, steps, rb, obs, sp=(0.0, 1.0)):
     counter, losses = obs
     errs = []
     if len(losses) != steps:
         errs.append(f"{len(losses)} losses recorded for {steps} steps")
-    if losses != [float(v) for v in vals[:steps]]:
+    if losses != [_lossval(v, sp) for v in vals[:steps]]:
         errs.append(f"recorded losses {losses} are not the scripted ones {vals[:steps]}")
         return errs
     if rb:
@@ -224,13 +233,14 @@ def run(ctx):
         if case[0] == "data":
             _, kind, vals, P, m, rb, nb = case
             kinds = (int(r.integers(0, 4)), int(r.integers(0, 2)) * 1) if r.random() < 0.3 else (0, 0)
-            obs = run_data(vals, P, m, rb, nb, kinds)
+            sp = SPACINGS[int(r.integers(0, 3))] if kind != "perm" or r.random() < 0.15 else SPACINGS[0]
+            obs = run_data(vals, P, m, rb, nb, kinds, sp)
             a, nt, nv = map(int, mout.split())
             exp = (a * nb, nt, nv)
             got = (obs[0], len(obs[1]), len(obs[2]))
             u1.count(case, nontrivial=(nv < min(m, len(vals)) or (rb and a != nv)), tag=kind)
-            errs = oracle_data(vals, P, m, rb, nb, obs)
-            cj = dict(loop="fit_to_data", vals=vals, max_patience=P, max_epochs=m, return_best=rb, batches_per_epoch=nb, arg_kinds=list(kinds))
+            errs = oracle_data(vals, P, m, rb, nb, obs, sp)
+            cj = dict(loop="fit_to_data", vals=vals, max_patience=P, max_epochs=m, return_best=rb, batches_per_epoch=nb, arg_kinds=list(kinds), spacing=list(sp))
             if len(u1.hashes) % 400 == 1:
                 ctx.sample(dict(case=cj, model=exp, observed=got))
             if exp != got or errs:
@@ -244,13 +254,14 @@ def run(ctx):
                 )
         elif case[0] == "var":
             _, kind, vals, steps, rb = case
-            obs = run_var(vals, steps, rb)
+            sp = SPACINGS[int(r.integers(0, 3))] if kind != "perm" or r.random() < 0.15 else SPACINGS[0]
+            obs = run_var(vals, steps, rb, sp)
             a, n = map(int, mout.split())
             exp, got = (a, n), (obs[0], len(obs[1]))
             tr = vals[:steps]
             u2.count(case, nontrivial=bool(tr) and tr.index(min(tr)) != len(tr) - 1 and rb, tag=kind)
-            errs = oracle_var(vals, steps, rb, obs)
-            cj = dict(loop="fit_to_variational_target", losses=vals, steps=steps, return_best=rb)
+            errs = oracle_var(vals, steps, rb, obs, sp)
+            cj = dict(loop="fit_to_variational_target", losses=vals, steps=steps, return_best=rb, spacing=list(sp))
             if len(u2.hashes) % 300 == 1:
                 ctx.sample(dict(case=cj, model=exp, observed=got))
             if exp != got or errs:
@@ -264,14 +275,15 @@ def run(ctx):
                 )
         else:
             _, kind, vals = case
-            got = int(s["count_fruitless"]([float(v) for v in vals]))
+            sp = SPACINGS[int(r.integers(0, 3))]
+            got = int(s["count_fruitless"]([_lossval(v, sp) for v in vals]))
             exp = int(mout)
             u3.count(case, nontrivial=len(set(vals)) < len(vals) or exp > 0, tag=kind)
             ref = len(vals) - 1 - int(np.argmin(vals))
             if got != exp or got != ref:
                 u3.disagreements += 1
-                ctx.violation(sig="count_fruitless", what=f"count_fruitless({vals}) = {got}, model {exp}, reference {ref}",
-                              case=dict(fn="count_fruitless", vals=vals), found_input=got != ref, unit=u3.name, expected=exp, observed=got)
+                ctx.violation(sig="count_fruitless", what=f"count_fruitless({[_lossval(v, sp) for v in vals]}) = {got}, model {exp}, reference {ref}",
+                              case=dict(fn="count_fruitless", vals=vals, spacing=list(sp)), found_input=got != ref, unit=u3.name, expected=exp, observed=got)
     ctx.assumptions += [
         "losses form a total order (no NaN); parameters are identified by the number of optimiser updates (counting optimiser)",
         "the scripted loss is a lookup table on the parameter counter, so the loops' own control flow is what is observed",
@@ -281,21 +293,21 @@ def run(ctx):
 def replay(ctx, rep):
     c = rep["case"]
     if c.get("loop") == "fit_to_data":
-        obs = run_data(c["vals"], c["max_patience"], c["max_epochs"], c["return_best"], c["batches_per_epoch"], tuple(c.get("arg_kinds", (0, 0))))
-        errs = oracle_data(c["vals"], c["max_patience"], c["max_epochs"], c["return_best"], c["batches_per_epoch"], obs)
+        obs = run_data(c["vals"], c["max_patience"], c["max_epochs"], c["return_best"], c["batches_per_epoch"], tuple(c.get("arg_kinds", (0, 0))), tuple(c.get("spacing", (0.0, 1.0))))
+        errs = oracle_data(c["vals"], c["max_patience"], c["max_epochs"], c["return_best"], c["batches_per_epoch"], obs, tuple(c.get("spacing", (0.0, 1.0))))
         m = ctx.model([f"c16.data {c['max_patience']} {c['max_epochs']} {int(c['return_best'])} {','.join(map(str, c['vals'])) or '-'}"])[0]
         a, nt, nv = map(int, m.split())
         print("observed", (obs[0], len(obs[1]), len(obs[2])), "model", (a * c["batches_per_epoch"], nt, nv), "oracle", errs)
         return not errs and (obs[0], len(obs[1]), len(obs[2])) == (a * c["batches_per_epoch"], nt, nv)
     if c.get("loop") == "fit_to_variational_target":
-        obs = run_var(c["losses"], c["steps"], c["return_best"])
-        errs = oracle_var(c["losses"], c["steps"], c["return_best"], obs)
+        obs = run_var(c["losses"], c["steps"], c["return_best"], tuple(c.get("spacing", (0.0, 1.0))))
+        errs = oracle_var(c["losses"], c["steps"], c["return_best"], obs, tuple(c.get("spacing", (0.0, 1.0))))
         m = ctx.model([f"c16.var {c['steps']} {int(c['return_best'])} {','.join(map(str, c['losses'])) or '-'}"])[0]
         print("observed", (obs[0], len(obs[1])), "model", m, "oracle", errs)
         return not errs and (obs[0], len(obs[1])) == tuple(map(int, m.split()))
     if c.get("fn") == "count_fruitless":
         s = _setup()
-        got = int(s["count_fruitless"]([float(v) for v in c["vals"]]))
+        got = int(s["count_fruitless"]([_lossval(v, tuple(c.get("spacing", (0.0, 1.0)))) for v in c["vals"]]))
         return got == len(c["vals"]) - 1 - int(np.argmin(c["vals"]))
     print("obligation replay: rebuild and re-check", c)
     return False
